@@ -3,7 +3,8 @@
    interpretation ends in a payload or an error - no panic (phasePanicMsg, index or slice out of range, failed type
    assertion), no statement without a meaning, no exhausted fuel. *)
 From Coq Require Import List ZArith NArith Bool Lia.
-From GoMC Require Import Model.C04_dsyntax Model.C04_dec Gen.Decoder Proofs.C04_dec.
+From GoMC Require Model.C04.
+From GoMC Require Import Model.C04_dsyntax Model.C04_dec Gen.Decoder Proofs.C04_dec Proofs.C04_dec_sweep.
 Import ListNotations.
 Local Open Scope Z_scope.
 
@@ -16,4 +17,19 @@ Theorem decoder_total_short1 (text : list Z) :
 Proof.
   intros L F. pose proof (checkp_sound (total nopf) alpha1 4 [] sweep_t1 text L F) as A. simpl in A.
   unfold total in A. destruct (decode_text nopf decoder_prog text); try discriminate A; [left; eauto | right; reflexivity].
+Qed.
+
+(* compound entries with quoted and bare keys: agreement with the specification parser on every text of at most 7 symbols
+   over braces, colon, both quotes, 1 and a *)
+Definition alpha4 : list Z := [123;125;58;39;34;49;97].
+Lemma sweep_k : checkp agree alpha4 7 [] = true.
+Proof. vm_cast_no_check (eq_refl true). Qed.
+Theorem decoder_agrees_short_keys (text : list Z) (t : C04.tag) :
+  (length text <= 7)%nat -> Forall (fun c => In c alpha4) text ->
+  C04.parse nopfs nopfs (map Z.to_N text) = Some t ->
+  decode_text nopf decoder_prog text = DOk (map Z.of_N (C04.enc t)).
+Proof.
+  intros L F P. pose proof (checkp_sound agree alpha4 7 [] sweep_k text L F) as A. simpl in A.
+  unfold agree in A. rewrite P in A. destruct (decode_text nopf decoder_prog text); try discriminate A.
+  f_equal. apply zeqb_eq, A.
 Qed.
